@@ -30,6 +30,7 @@ def run(ctx, rep):
     rep.section(m5, ctx, rep)
     rep.section(m4, ctx, rep)
     rep.section(m6, ctx, rep)
+    rep.section(m7, ctx, rep)
 
 
 def m0(ctx, rep):
@@ -259,6 +260,24 @@ def m6(ctx, rep):
         rep.check(completed, 'M6', f"used_imports:entry-created#{n}", 'entry created when absent', f"used_imports only *extends* an existing import entry under `{branch}` (and_modify without or_insert/or_default): when no other import of that crate exists — a file that reaches another crate's types through `use other::*` alone — the import line is missing although the types are used", {'file': f['file'], 'line': c.get('line')})
     ents = [c for c in fx['calls'] if c.get('f') == 'entry']
     rep.floor('M6', 'import-entry updates in used_imports', len(ents), 2)
+
+
+def m7(ctx, rep):
+    """M7: an import names a type by the name its module defines it under.  The import list collected from `use` items carries
+    Rust names; definitions (and, after reconcile, references) carry the serde(rename) name — so reconcile_aliases must also
+    rewrite `import_types[..].type_name` through the rename table, keyed by the crate the import names."""
+    ra = ctx.fnx('reconcile_aliases', file='reconcile.rs')
+    site = {'file': ra['file'], 'line': ra['line']}
+    rew = []
+    for a in ra['assigns']:
+        t = vt.show(a.get('target')).replace(' ', '')
+        if not t.endswith('.type_name') or 'import_types' not in t:
+            continue
+        v = vt.show(a.get('value')).replace(' ', '')
+        rew.append(('serde_renamed' in v or 'collect_serde_renames' in v) and '.type_name' in v and '.base_crate' in v)
+    rep.check(bool(rew) and all(rew), 'M7', 'reconcile_aliases:import-names-renamed', 'import names rewritten through the rename table, per imported crate', "reconcile_aliases leaves the names in `import_types` as written in the `use` items: for a type carrying serde(rename) the reference is renamed but the import still asks for the Rust name, which the defining module does not export — the import is dropped (TypeScript, Kotlin) and the renamed reference is left unresolved", site)
+    put = [a for a in ra['assigns'] if vt.show(a.get('target')).replace(' ', '').endswith('.import_types')]
+    rep.check(bool(put), 'M7', 'reconcile_aliases:imports-restored', 'import list handed on to generation', 'reconcile_aliases takes the import list of a crate and never puts it back: no imports are generated at all', site)
 
 
 def m5(ctx, rep):
